@@ -34,8 +34,8 @@ func init() {
 		Old: "existing.NameWithPath = d.deconflicter(existing.ID, existing.NameWithPath)", New: "existing.NameWithPath = d.deconflicter(splitID, existing.NameWithPath)",
 		Expect: "ownership"})
 	addWitness(witness{Prop: "C11", Name: "winner-keeps-old-owner", File: "pkg/core/diamond_commit.go",
-		Old: "\t\t\t\t\t\t// overwrite with new version\n\t\t\t\t\t\tmergeIndex, _, _ = mergeIndex.Insert(key, mergeEntry{BundleEntry: file, ID: splitID})",
-		New: "\t\t\t\t\t\t// overwrite with new version\n\t\t\t\t\t\texisting.BundleEntry = file\n\t\t\t\t\t\tmergeIndex, _, _ = mergeIndex.Insert(key, existing)",
+		Old:    "\t\t\t\t\t\t// overwrite with new version\n\t\t\t\t\t\tmergeIndex, _, _ = mergeIndex.Insert(key, mergeEntry{BundleEntry: file, ID: splitID})",
+		New:    "\t\t\t\t\t\t// overwrite with new version\n\t\t\t\t\t\texisting.BundleEntry = file\n\t\t\t\t\t\tmergeIndex, _, _ = mergeIndex.Insert(key, existing)",
 		Expect: "ownership"})
 	addWitness(witness{Prop: "C11", Name: "timestamp-hoisted", File: "pkg/core/index.go",
 		Old: "\t\t\tentry.Timestamp = time.Now() // this registers the time of upload (used to disambiguate conflicts)", New: "\t\t\tentry.Timestamp = time.Now().Truncate(time.Hour)",
@@ -56,19 +56,19 @@ func init() {
 		Old: "\treturn d.writeMetadata(dest, storage.NoOverWrite, buffer)", New: "\treturn d.writeMetadata(dest, storage.OverWrite, buffer)",
 		Expect: "no-overwrite"})
 	addWitness(witness{Prop: "C12", Name: "done-read-error-means-running", File: "pkg/core/diamond.go",
-		Old: "\t\tif !errors.Is(err, storagestatus.ErrNotExists) {\n\t\t\treturn err\n\t\t}\n\t\t// try retrieving descriptor in initial state\n\t\tsrc = model.GetArchivePathToInitialDiamond(",
-		New: "\t\tif errors.Is(err, storagestatus.ErrNotExists) {\n\t\t\td.l.Debug(\"diamond not done\")\n\t\t}\n\t\t// try retrieving descriptor in initial state\n\t\tsrc = model.GetArchivePathToInitialDiamond(",
+		Old:    "\t\tif !errors.Is(err, storagestatus.ErrNotExists) {\n\t\t\treturn err\n\t\t}\n\t\t// try retrieving descriptor in initial state\n\t\tsrc = model.GetArchivePathToInitialDiamond(",
+		New:    "\t\tif errors.Is(err, storagestatus.ErrNotExists) {\n\t\t\td.l.Debug(\"diamond not done\")\n\t\t}\n\t\t// try retrieving descriptor in initial state\n\t\tsrc = model.GetArchivePathToInitialDiamond(",
 		Expect: "terminal-state-read"})
 	addWitness(witness{Prop: "C12", Name: "commit-writes-before-ready-check", File: "pkg/core/diamond_commit.go",
-		Old: "\tif err = diamondReady(d.RepoID, d.DiamondDescriptor.DiamondID, d.contextStores); err != nil {\n\t\treturn errors.New(\"cannot proceed with diamond commit\").WrapWithLog(logger, err)\n\t}\n",
-		New: "",
+		Old:    "\tif err = diamondReady(d.RepoID, d.DiamondDescriptor.DiamondID, d.contextStores); err != nil {\n\t\treturn errors.New(\"cannot proceed with diamond commit\").WrapWithLog(logger, err)\n\t}\n",
+		New:    "",
 		Expect: "ready-first"})
 	addWitness(witness{Prop: "C12", Name: "cancel-accepts-done", File: "pkg/core/diamond_commit.go",
 		Old: "\tcase model.DiamondCanceled, model.DiamondDone:", New: "\tcase model.DiamondCanceled:",
 		Expect: "state-tables"})
 	addWitness(witness{Prop: "C12", Name: "done-written-on-failure", File: "pkg/core/diamond_commit.go",
-		Old: "\t\tif err != nil {\n\t\t\t// TODO(fred): nice - last ditch check done automatically with nooverwrite: problem is error qualification...\n\t\t\tlogger.Error(\"diamond commit failed\", zap.Error(err))\n\t\t\treturn\n\t\t}",
-		New: "\t\tif err != nil {\n\t\t\t// TODO(fred): nice - last ditch check done automatically with nooverwrite: problem is error qualification...\n\t\t\tlogger.Error(\"diamond commit failed\", zap.Error(err))\n\t\t}",
+		Old:    "\t\tif err != nil {\n\t\t\t// TODO(fred): nice - last ditch check done automatically with nooverwrite: problem is error qualification...\n\t\t\tlogger.Error(\"diamond commit failed\", zap.Error(err))\n\t\t\treturn\n\t\t}",
+		New:    "\t\tif err != nil {\n\t\t\t// TODO(fred): nice - last ditch check done automatically with nooverwrite: problem is error qualification...\n\t\t\tlogger.Error(\"diamond commit failed\", zap.Error(err))\n\t\t}",
 		Expect: "done-after-bundle"})
 	addWitness(witness{Prop: "C12", Name: "generation-reused", File: "pkg/core/split.go",
 		Old: "\ts.SplitDescriptor.GenerationID = generationID.String()\n", New: "\tif s.SplitDescriptor.GenerationID == \"\" {\n\t\ts.SplitDescriptor.GenerationID = generationID.String()\n\t}\n",
@@ -77,8 +77,8 @@ func init() {
 		Old: "\t\t\tif sd.State == model.SplitDone {\n\t\t\t\tsplits = append(splits, sd)\n\t\t\t}", New: "\t\t\tsplits = append(splits, sd)",
 		Expect: "done-splits-only"})
 	addWitness(witness{Prop: "C12", Name: "commit-reads-latest-generation", File: "pkg/core/index_iterators.go",
-		Old: "return model.GetArchivePathToSplitFileList(sp.repoID, sp.diamondID, sp.splits[sp.i-1].SplitID, sp.splits[sp.i-1].GenerationID, index)",
-		New: "return model.GetArchivePathToSplitFileList(sp.repoID, sp.diamondID, sp.splits[sp.i-1].SplitID, sp.splits[0].GenerationID, index)",
+		Old:    "return model.GetArchivePathToSplitFileList(sp.repoID, sp.diamondID, sp.splits[sp.i-1].SplitID, sp.splits[sp.i-1].GenerationID, index)",
+		New:    "return model.GetArchivePathToSplitFileList(sp.repoID, sp.diamondID, sp.splits[sp.i-1].SplitID, sp.splits[0].GenerationID, index)",
 		Expect: "generation-paths"})
 }
 
@@ -514,7 +514,9 @@ func runC11(c *Ctx) {
 		// implCommit: merge started before Upload consumes; covered by C06 for descriptor ordering
 		ic := p.Func("pkg/core.Diamond.implCommit")
 		icb := p.BodyOf(ic)
-		bad, nB := icb.dominatedBy(func(bd *Body, call *ast.CallExpr) bool { return calleeID(bd.Info(), call) == "pkg/core.Diamond.collectSplits" }, callTo("pkg/core.fileIndex.Upload"))
+		bad, nB := icb.dominatedBy(func(bd *Body, call *ast.CallExpr) bool {
+			return calleeID(bd.Info(), call) == "pkg/core.Diamond.collectSplits"
+		}, callTo("pkg/core.fileIndex.Upload"))
 		c.check(nB == 1 && len(bad) == 0, "hand-off.splits-collected-first", ic.ID, p.Pos(ic.Decl.Pos()), "the splits are collected before the merge output is uploaded", "implCommit uploads the merged index before collecting the splits")
 	}
 }
@@ -730,7 +732,9 @@ func runC12(c *Ctx) {
 	// terminal state read: fallback only on ErrNotExists
 	for _, fn := range []string{"pkg/core.Diamond.downloadDescriptor", "pkg/core.Split.downloadDescriptor"} {
 		f := p.Func(fn)
-		checkErrDiscipline(c, "terminal-state-read", f, func(id string) bool { return id == "pkg/core.metaObject.readMetadata" || id == "gopkg.in/yaml.v2.Unmarshal" }, nil)
+		checkErrDiscipline(c, "terminal-state-read", f, func(id string) bool {
+			return id == "pkg/core.metaObject.readMetadata" || id == "gopkg.in/yaml.v2.Unmarshal"
+		}, nil)
 		// the first read is of the final descriptor
 		first := ""
 		ast.Inspect(f.Decl.Body, func(n ast.Node) bool {
@@ -840,7 +844,9 @@ func runC12(c *Ctx) {
 		}
 		c.check(okIt, "generation-paths.upload", f.ID, p.Pos(f.Decl.Pos()), "index paths are built from the split descriptor holding the new generation", "the upload iterator is no longer built from s.SplitDescriptor")
 		// split-done last
-		isDone := func(bd *Body, call *ast.CallExpr) bool { return calleeID(finfo, call) == "pkg/core.Split.uploadDescriptor" }
+		isDone := func(bd *Body, call *ast.CallExpr) bool {
+			return calleeID(finfo, call) == "pkg/core.Split.uploadDescriptor"
+		}
 		isIdx := callTo("pkg/core.fileIndex.Upload")
 		badA, nA, nBB := fb.neverAfter(isDone, isIdx)
 		badS, nS := fb.mustPassBeforeSuccess(isDone)
@@ -852,7 +858,9 @@ func runC12(c *Ctx) {
 			}
 		}
 		c.check(nA == 1 && nBB == 1 && len(badA) == 0 && nS > 0 && len(badS) == 0 && len(badD) == 0 && okState, "split-done-last", f.ID, p.Pos(f.Decl.Pos()), "split-done is written after the index files, on every success path, and nothing is uploaded after it", "Split.implUpload does not write split-done last (after its index files, on every success path)")
-		checkNoSwallow(c, "split-done-last", f, func(id string) bool { return id == "pkg/core.fileIndex.Upload" || id == "pkg/core.Split.uploadDescriptor" }, nil)
+		checkNoSwallow(c, "split-done-last", f, func(id string) bool {
+			return id == "pkg/core.fileIndex.Upload" || id == "pkg/core.Split.uploadDescriptor"
+		}, nil)
 		// count recorded
 		okCnt := false
 		ast.Inspect(f.Decl.Body, func(n ast.Node) bool {
@@ -938,4 +946,7 @@ func runC12(c *Ctx) {
 		})
 		c.check(okOnly && nApp == 1, "done-splits-only", f.ID, p.Pos(f.Decl.Pos()), "a split is collected iff its state is SplitDone", "collectSplits no longer keeps exactly the splits whose state is SplitDone: running or failed splits contribute file lists that may be incomplete")
 	}
+	// completed splits only: the done/running merge of split descriptor keys must survive listing page boundaries
+	// (shared with C07), otherwise a completed split is seen as running and left out of the commit
+	checkMergeKeysState(c)
 }
